@@ -222,6 +222,26 @@ def check_class(mod: CF.Module, classes: list[dict], k: int, lab: Labels) -> lis
     return summary
 
 
+def redefined(classes: list[dict]) -> list[dict]:
+    """same class and field names; per class the own fields in reverse order, compare / init flags
+    flipped on properties (kinds kept, so overrides stay legal)"""
+    out = []
+    for c in classes:
+        fs = []
+        for f in reversed(c["fields"]):
+            g = dict(f)
+            flags = dict(f.get("flags", {}))
+            if f["kind"] in PROP_KINDS:
+                if "compare" in flags:
+                    flags.pop("compare")
+                else:
+                    flags["compare"] = False
+            g["flags"] = flags
+            fs.append(g)
+        out.append({**c, "fields": fs})
+    return out
+
+
 def check_hierarchy(data: dict, lab: Labels) -> None:
     classes = to_classes(data)
     n = len(classes)
@@ -238,6 +258,29 @@ def check_hierarchy(data: dict, lab: Labels) -> None:
     lab.tag_if(any(c.get("kw_only") for c in classes), "kw_only")
     lab.tag_if(any(c.get("bases") and len(c["bases"]) > 1 for c in classes), "multiple-inheritance")
     lab.nontrivial = (n >= 2 and override) or both or any(f["kind"] not in PROP_KINDS for c in classes for f in c["fields"])
+    if data.get("redefine"):
+        # the same class statements executed a second time with other field definitions (same module
+        # name, same class names - legal, the registry allows it): the second definitions must be
+        # served from their own field tables
+        lab.tag("redefinition")
+        uid = CF.new_uid()
+        classes2 = redefined(classes)
+        m1 = CF.build(classes, postponed=bool(data.get("postponed")), uid=uid)
+        m2 = None
+        try:
+            if m1.error is not None:
+                raise m1.error
+            for k in range(n):
+                check_class(m1, classes, k, lab)
+            m2 = CF.build(classes2, postponed=bool(data.get("postponed")), uid=uid)
+            if m2.error is not None:
+                raise m2.error
+            for k in range(n):
+                check_class(m2, classes2, k, lab)
+        finally:
+            m1.close()
+            if m2 is not None:
+                m2.close()
     orders = list(itertools.permutations(range(n)))
     if len(orders) > 6:  # 4 classes: combining class first / last, base first / last, two mixed orders
         orders = [(0, 1, 2, 3), (3, 2, 1, 0), (3, 0, 1, 2), (1, 3, 2, 0), (2, 1, 3, 0), (1, 2, 0, 3)]
@@ -274,7 +317,7 @@ def st_hierarchy(ctx: Ctx):
         return st.lists(st.sampled_from(names), max_size=5, unique=True).flatmap(
             lambda ns: st.tuples(*[field(n) for n in ns]).map(list) if ns else st.just([]))
 
-    def fix(levels: list[list[dict]], kws: list[bool], postponed: bool, diamond: bool = False) -> dict:
+    def fix(levels: list[list[dict]], kws: list[bool], postponed: bool, diamond: bool = False, redefine: bool = False) -> dict:
         # an override keeps the kind of the field it overrides
         kind_of: dict[str, str] = {}
         out = []
@@ -292,10 +335,10 @@ def st_hierarchy(ctx: Ctx):
             # C0 <- C1, C0 <- C2, C3(C1, C2): the last class combines two bases (often with no own fields)
             out[2]["bases"] = [0]
             out.append({"fields": [], "kw_only": False, "bases": [1, 2]})
-        return {"levels": out, "postponed": postponed}
+        return {"levels": out, "postponed": postponed, "redefine": redefine}
 
     return st.tuples(st.one_of(st.lists(level(), min_size=2, max_size=3), st.lists(level(), min_size=1, max_size=3)), st.lists(st.booleans(), min_size=3, max_size=3),
-                     st.booleans(), st.booleans()).map(lambda t: fix(t[0], t[1], t[2], t[3]))
+                     st.booleans(), st.booleans(), st.sampled_from([False, False, True])).map(lambda t: fix(t[0], t[1], t[2], t[3], t[4]))
 
 
 PARTS = [Part("hierarchies", check_hierarchy, strategy=st_hierarchy, quick=400, thorough=16000)]
